@@ -151,6 +151,59 @@ CHECKS = {
               "environments) - translation validation per instance, not a universal theorem about the simplifier."),
         design_ref='DESIGN.md section 7 / C05',
         technique='Coq proof of the path decomposition + translation validation of each rendered DNF/text through the proved compile (canonicity)'),
+    'C06': dict(
+        text=("Machine-checked proof (Coq), for every input text and every answer of the dependencies (Unicode classes, PEP 440 syntax, URL parser, environment): "
+              "each parsing entry point of the model (requirement incl. both URL types and both feature configurations, marker tree, marker expression, extras list, "
+              "unnamed requirement) is a total function; every `expect` / `unreachable!` / out-of-fuel site of the code is the explicit error kind EPanic and is never "
+              "returned (scanned names and extras always validate; fuel suffices); every returned error span starts on a character boundary within the input or at its "
+              "end, has length <= 1 at the end and otherwise ends on a character boundary - exactly what Pep508Error's Display needs not to panic. Names are covered by C09. "
+              "Tie: all token sequences up to length 2-3 over alphabets with multi-byte white space, letters and emoji after 40+21+24 prefixes through every entry point "
+              "with catch_unwind, Display of each error, a follow-up marker operation (poisoned interner), outcome + span + components vs the extracted parser, under both "
+              "feature sets. Overflow on u64::MAX release segments is the open finding F6d (inside pep440_rs arithmetic shared with the crate); stack exhaustion on "
+              "unbounded nesting is outside the claim (as the property states)."),
+        design_ref='DESIGN.md section 7 / C06',
+        technique='Coq proof (cursor-advance / character-boundary invariant through every sub-parser; unreachability of panic sites) + exhaustive small-sequence differential correspondence with panic and poison detection'),
+    'C07': dict(
+        text=("Machine-checked proof (Coq): for every derivation of the requirement grammar - blanks, name, optional extras group with blanks around every identifier, "
+              "no version / bare specifiers / parenthesised specifiers / `@` URL, optional `;` marker - whose components are individually well-formed (identifiers validate, "
+              "each specifier piece is accepted by the PEP 440 oracle and contains no delimiter, the URL text has no blank and is accepted by the URL type, a blank separates a URL "
+              "from `;`, the marker text is accepted by the marker parser), the parser returns exactly the derivation's components (normalised name, extras in order, the sorted "
+              "specifier list, URL with verbatim text, marker); the result does not depend on any of the blanks (corollary). The marker sub-parser is a black box in this theorem "
+              "(its typed dispatch is C17, its semantics C01, and/or keyword recognition is tied by the correspondence run). Tie: random derivations x layouts through both URL types: "
+              "accepted, components equal to independent expectations (PEP 503 name, VersionSpecifier::from_str per piece, Url::parse, MarkerTree::from_str of a canonical marker "
+              "text), all layouts equal, and the extracted parser on every text. `===` inside markers is the open finding F7b."),
+        design_ref='DESIGN.md section 7 / C07',
+        technique='Coq proof (one consumption lemma per grammar component, composed through the driver) + differential correspondence on random derivations x white-space layouts'),
+    'C08': dict(
+        text=("Machine-checked proof (Coq): Display of a requirement is a derivation of the grammar in a particular layout, so (corollary of the C07 theorem) it parses back to a "
+              "requirement with the same name, extras, specifier list / URL and marker, and rendering that again gives the same text - provided the component round trips hold: "
+              "canonical specifier texts re-parse to the same specifier (also with the blank Display puts before ` ; `), the URL text has no blank and re-parses to itself, the "
+              "marker text re-parses to the same diagram (C05). Those component facts are properties of pep440_rs / url / the DNF printer and are checked per case, not proved. "
+              "serde goes through the same Display/FromStr (collect_str / String::deserialize), checked by execution. Tie: Display -> FromStr -> Display and serde_json round trips "
+              "on random and hand-picked requirements (URLs ending in ;/#, blanks, env expansions, FALSE and deprecated markers by equivalence), both URL types, both feature sets, "
+              "unnamed requirements under the extension; Display compared with the extracted display model."),
+        design_ref='DESIGN.md section 7 / C08',
+        technique='Coq proof (Display is an accepted derivation: corollary of the acceptance theorem) + executed round trips (Display/FromStr/serde) with per-component equality'),
+    'C18': dict(
+        text=("Machine-checked proof (Coq), for every text and every white-space class: the URL scan returns the unique prefix ending at the first stopping point (end of input, "
+              "line break, or a blank after which only blanks and then `;`/`#`/end follow) or just after a `;`/`#` that is directly followed by a blank, with no earlier such point; "
+              "a URL that stopped at such a glued `;`/`#` and is followed by anything but a marker or the end is rejected with the ambiguity error at that character, whatever the "
+              "marker oracles; given() is the scanned text unexpanded and the URL is parsed from its expansion; expansion is leftmost non-overlapping replacement of complete "
+              "`${NAME}` references (NAME = A-Z 0-9 _, non-empty), set names by their value, unset names verbatim, PROJECT_ROOT falling back to the working directory. The URL parser "
+              "(url crate) and the process environment are oracles. Tie: URL texts x following contexts x environments (set / unset / blank / `;` / self-referential values) against "
+              "an independent reading of the property in Python (expected URL text, expected ambiguity, regex expansion) and against the extracted model."),
+        design_ref='DESIGN.md section 7 / C18',
+        technique='Coq proof (characterisation + uniqueness of the scan, automaton invariant for expansion) + differential correspondence against an independent reference reading under varied process environments'),
+    'C19': dict(
+        text=("Machine-checked proof (Coq), both URL types and both feature configurations: inputs starting with `/`, `\\` or `.` (after optional blanks), inputs `scheme:rest` with a "
+              "well-formed scheme and arbitrary rest, and inputs `name/rest`, `name\\rest` are rejected with the dedicated unsupported-requirement kinds whatever follows (extras, "
+              "marker, `${..}`); an accepted requirement without version/URL never has a name that looks like an archive, and `archive-name [blanks] [; marker]` is rejected with the "
+              "dedicated kind; any non-empty base with one of pip's extensions is an archive name. The unnamed parser: given() is the scanned text minus its trailing bracket group, "
+              "verbatim, the URL is parsed from its expansion, extras come from the bracket group, the marker from the tail. Round trip of unnamed requirements is by execution "
+              "(C08 machinery). Path-to-URL conversion (filesystem, percent-decoding) is an oracle. Tie: schemes x tails, paths, names x extensions (+ negative controls) x suffixes "
+              "through both requirement types under both feature sets, and through UnnamedRequirement (given(), extras, marker, Display round trip) under the extension."),
+        design_ref='DESIGN.md section 7 / C19',
+        technique='Coq proof (trace of the driver on each input class; looks_like_unnamed / looks_like_archive lemmas) + differential correspondence under both feature configurations'),
 }
 
 PENDING = {}
